@@ -187,6 +187,7 @@ struct Sums {
     refuse_cases_clean: u64,
     /// (also counted in tcp_cases_clean / udp_cases_clean)
     v6_cases_clean: u64,
+    after_half_cases_clean: u64,
     stray_cases_clean: u64,
     families_cases_clean: u64,
     dual_cases_clean: u64,
@@ -208,6 +209,11 @@ fn add_tcp(a: &mut TcpStats, b: &TcpStats) {
     a.refuse_end_reset += b.refuse_end_reset;
     a.refuse_refused_reply += b.refuse_refused_reply;
     a.refuse_closed_before_reply += b.refuse_closed_before_reply;
+    a.after_halfclose_closed += b.after_halfclose_closed;
+    a.after_halfclose_filler_read += b.after_halfclose_filler_read;
+    for (k, n) in &b.after_halfclose_end_kinds {
+        *a.after_halfclose_end_kinds.entry(k.clone()).or_insert(0) += n;
+    }
 }
 
 fn add_udp(a: &mut UdpStats, b: &UdpStats) {
@@ -246,12 +252,21 @@ struct Bounds {
     udp_two_families: bool,
     /// (client->target, target->client) lengths of the dual-stack-name sub-matrix
     tcp_dual_lens: Vec<(usize, usize)>,
+    /// "close after half-close" sub-matrix (the two close orders of `Order::AFTER_HALF`, every
+    /// entry point, one-write chunking): stream lengths per direction with 1 connection ...
+    after_half_lens: Vec<usize>,
+    /// ... and the one (client->target = target->client) length that is run with 3 connections
+    after_half_conc3_len: Option<usize>,
 }
 
 /// close order, chunking and connections of the dual-stack-name sub-matrix
 const DUAL_ORDER: Order = Order::ClientHalf;
 const DUAL_CHUNK: Chunk = Chunk::One;
 const DUAL_CONC: usize = 1;
+
+/// chunking and connections of the "close after half-close" sub-matrix
+const AFTER_HALF_CHUNK: Chunk = Chunk::One;
+const AFTER_HALF_CONC_MANY: usize = 3;
 
 /// close order, chunking and connections of the IPv6-literal sub-matrix
 const V6_ORDER: Order = Order::ClientHalf;
@@ -262,10 +277,10 @@ fn bounds(args: &Args) -> Bounds {
     // the default receive window is 512 frames and the bridges read at most 8 KiB per frame, so
     // 512 * 8 KiB = 4 MiB is the least stream length that certainly needs a window update
     if args.thorough() {
-        Bounds { tcp_lens: vec![0, 1, 4099, 3 * 512 * 8192 + 5], tcp_len_window: None, slow_udp: true, concs: vec![1, 3, 5], udp_lens: vec![0, 1, 2, 3, 4, 5, 1400, 1472, 9000, 65000], deadline_s: 40, parallel: args.threads.clamp(1, 8), ipv6_loopback: tcp::ipv6_loopback(), tcp_v6_lens: vec![(1, 1), (70001, 70001)], udp_two_families: udp::ipv6_loopback(), tcp_dual_lens: vec![(4099, 4099)] }
+        Bounds { tcp_lens: vec![0, 1, 4099, 3 * 512 * 8192 + 5], tcp_len_window: None, slow_udp: true, concs: vec![1, 3, 5], udp_lens: vec![0, 1, 2, 3, 4, 5, 1400, 1472, 9000, 65000], deadline_s: 40, parallel: args.threads.clamp(1, 8), ipv6_loopback: tcp::ipv6_loopback(), tcp_v6_lens: vec![(1, 1), (70001, 70001)], udp_two_families: udp::ipv6_loopback(), tcp_dual_lens: vec![(4099, 4099)], after_half_lens: vec![1, 3 * 512 * 8192 + 5], after_half_conc3_len: Some(4099) }
     } else {
         // 70001 B: nine 8 KiB frames, everywhere; 4198403 B (one window + 4099 B: needs a window update): sub-matrix
-        Bounds { tcp_lens: vec![0, 1, 70001], tcp_len_window: Some(512 * 8192 + 4099), slow_udp: false, concs: vec![1, 3], udp_lens: vec![0, 1, 3, 4, 1400], deadline_s: 30, parallel: args.threads.clamp(1, 8), ipv6_loopback: tcp::ipv6_loopback(), tcp_v6_lens: vec![(1, 1), (70001, 70001)], udp_two_families: udp::ipv6_loopback(), tcp_dual_lens: vec![(4099, 4099)] }
+        Bounds { tcp_lens: vec![0, 1, 70001], tcp_len_window: Some(512 * 8192 + 4099), slow_udp: false, concs: vec![1, 3], udp_lens: vec![0, 1, 3, 4, 1400], deadline_s: 30, parallel: args.threads.clamp(1, 8), ipv6_loopback: tcp::ipv6_loopback(), tcp_v6_lens: vec![(1, 1), (70001, 70001)], udp_two_families: udp::ipv6_loopback(), tcp_dual_lens: vec![(4099, 4099)], after_half_lens: vec![1, 512 * 8192 + 4099], after_half_conc3_len: Some(70001) }
     }
 }
 
@@ -307,6 +322,19 @@ fn matrix(b: &Bounds) -> Vec<Case> {
                         }
                     }
                 }
+            }
+        }
+    }
+    // "close after half-close": one end half-closes, the other keeps sending, the first end closes
+    for entry in Entry::ALL {
+        for order in Order::AFTER_HALF {
+            for &c2t in &b.after_half_lens {
+                for &t2c in &b.after_half_lens {
+                    v.push(Case::Tcp(TcpCase { entry, c2t, t2c, chunk: AFTER_HALF_CHUNK, order, conc: 1, dual: None }));
+                }
+            }
+            if let Some(l) = b.after_half_conc3_len {
+                v.push(Case::Tcp(TcpCase { entry, c2t: l, t2c: l, chunk: AFTER_HALF_CHUNK, order, conc: AFTER_HALF_CONC_MANY, dual: None }));
             }
         }
     }
@@ -385,6 +413,25 @@ fn control_self_test() -> Result<(), String> {
                     return Err(format!("oracle did not verify the connections of {}", c.label()));
                 }
             }
+        }
+        // close after half-close: a faithful relay takes the local connection away when the target is gone
+        for order in Order::AFTER_HALF {
+            for (a, b, conc) in [(1usize, 1usize, 1usize), (70001, 5, 3), (0, 70001, 1)] {
+                let c = mk(order, a, b, conc);
+                let o = tcp::run_tcp(&Mode::Control(Fault::Faithful), &c, 20, 0).await;
+                if !o.failures.is_empty() {
+                    return Err(format!("oracle raises an alarm on a faithful relay ({}): {} / {}", c.label(), o.failures[0].key, o.failures[0].desc));
+                }
+                if o.stats.conns_verified != conc as u64 || o.stats.after_halfclose_closed != conc as u64 {
+                    return Err(format!("oracle did not verify the connections of {}", c.label()));
+                }
+            }
+        }
+        // ... and one that keeps swallowing what the local connection sends is caught (2 s deadline)
+        let c = mk(Order::TargetHalfThenClose, 1, 1, 1);
+        let o = tcp::run_tcp(&Mode::Control(Fault::SwallowWhenTargetGone), &c, 2, 0).await;
+        if !o.failures.iter().any(|f| f.deadline && f.key.starts_with("tcp.hang.")) {
+            return Err(format!("oracle misses a relay that leaves the local connection hanging after the target's half-close and close: {:?}", o.failures.iter().map(|f| &f.key).collect::<Vec<_>>()));
         }
         let c = mk(Order::ClientHalf, 9000, 9000, 2);
         let o = tcp::run_tcp(&Mode::Control(Fault::FlipFirstByte), &c, 20, 0).await;
@@ -943,6 +990,7 @@ pub fn run(args: &Args) -> Report {
                                     }
                                     match case {
                                         Case::Tcp(t) if t.entry.v6literal() => g.v6_cases_clean += 1,
+                                        Case::Tcp(t) if t.order.after_half() => g.after_half_cases_clean += 1,
                                         Case::Udp(u) if u.topo.stray().is_some() => g.stray_cases_clean += 1,
                                         Case::Udp(u) if u.topo.two_families() => g.families_cases_clean += 1,
                                         _ => {}
@@ -1086,6 +1134,16 @@ pub fn run(args: &Args) -> Report {
         None => format!("L = {:?} for every combination", b.tcp_lens),
         Some(w) => format!("L = {:?} for every combination, and L = {:?} (adds the window-exceeding length {w}) for the sub-matrix connections = 1 AND chunking = one-write (all 7 entry points, all 5 close orders)", b.tcp_lens, b.tcp_lens.iter().copied().chain([w]).collect::<Vec<_>>()),
     };
+    let after_half_rule = format!(
+        "; plus the close-after-half-close sub-matrix: entry point (7) x close order ({}: one end half-closes after its payload, the other end keeps sending filler, the first end reads the payload and up to {} filler bytes (for at most {} ms) and closes completely; the sending end's connection must then be closed or reset before the deadline) x [1 connection x client->target length in {:?} x target->client length in {:?}{}], {}",
+        Order::AFTER_HALF.iter().map(|e| e.name()).collect::<Vec<_>>().join(", "),
+        tcp::AFTER_HALF_FILLER_READ,
+        tcp::AFTER_HALF_LINGER.as_millis(),
+        b.after_half_lens,
+        b.after_half_lens,
+        b.after_half_conc3_len.map_or_else(String::new, |l| format!(" + {AFTER_HALF_CONC_MANY} connections x both lengths {l}")),
+        AFTER_HALF_CHUNK.name()
+    );
     let v6_rule = if b.ipv6_loopback {
         format!("; plus the IPv6-literal sub-matrix (target listens on [::1]): entry point (remote specification with [::1]:port, SOCKS5 CONNECT with ATYP=4, HTTP CONNECT [::1]:port) x (client->target, target->client) lengths {:?}, {} connection, {}, {}", b.tcp_v6_lens, V6_CONC, V6_CHUNK.name(), V6_ORDER.name())
     } else {
@@ -1112,7 +1170,7 @@ pub fn run(args: &Args) -> Report {
         "; the SOCKS5 UDP two-address-families topologies are SKIPPED: this machine has no IPv6 loopback address".to_string()
     };
     let stray_rule = format!("; plus SOCKS5 UDP (IPv4 header, domain header) x stray datagram to the relay port from another local socket after the first exchange ({}) with {}-byte payloads, 3 exchanges", Topo::STRAY.iter().filter_map(|t| t.stray()).map(|(d, n)| format!("{n}: {}", vcommon::report::hex(d))).collect::<Vec<_>>().join(", "), udp::STRAY_LEN);
-    rep.rule = format!("complete product, every point enumerated (no sampling): TCP = entry point (7) x connections {:?} x chunking (3) x [close order (4) x client->target length in L x target->client length in L + target-refuses x client->target length in L], where {len_rule}{v6_rule}{dual_rule}; UDP = entry (UDP remote, SOCKS5 UDP with IPv4 header, with domain header) x topology (1 client, 3 clients, 1 socket to 2 entry points, 1 client whose payload lengths change from datagram to datagram (len, 3, len+500, 0, len+1); SOCKS5 only: 1 association alternating between 2 targets with the same host string and different ports, and between 2 targets with different host strings 127.0.0.1/127.0.0.2 and the same port) x payload length, 3 request/reply exchanges per leg{stray_rule}{families_rule}{}; one execution per point (more only after a lost port race or a deadline hit); a case is distinct when its parameter tuple is distinct", b.concs, if b.slow_udp { format!("; plus the real-time scenarios: UDP entry (3) x [steady sender: 1 datagram of {} bytes per second for 2*UDP_PRUNE_TIMEOUT+3 = {} s to a silent target, which then answers the last one | idle: one exchange, {} s of silence, one more exchange | idle gap between one and two prune timeouts: one exchange, {} s of silence, one more exchange from the same socket whose FIRST transmission must be at the target within {} ms]", udp::SLOW_LEN, 2 * udp::prune_timeout().as_secs() + 3, 2 * udp::prune_timeout().as_secs() + 1, udp::prune_timeout().as_secs() + udp::GAP_EXTRA_S, udp::GAP_FIRST_TX_MS) } else { String::new() });
+    rep.rule = format!("complete product, every point enumerated (no sampling): TCP = entry point (7) x connections {:?} x chunking (3) x [close order (4) x client->target length in L x target->client length in L + target-refuses x client->target length in L], where {len_rule}{after_half_rule}{v6_rule}{dual_rule}; UDP = entry (UDP remote, SOCKS5 UDP with IPv4 header, with domain header) x topology (1 client, 3 clients, 1 socket to 2 entry points, 1 client whose payload lengths change from datagram to datagram (len, 3, len+500, 0, len+1); SOCKS5 only: 1 association alternating between 2 targets with the same host string and different ports, and between 2 targets with different host strings 127.0.0.1/127.0.0.2 and the same port) x payload length, 3 request/reply exchanges per leg{stray_rule}{families_rule}{}; one execution per point (more only after a lost port race or a deadline hit); a case is distinct when its parameter tuple is distinct", b.concs, if b.slow_udp { format!("; plus the real-time scenarios: UDP entry (3) x [steady sender: 1 datagram of {} bytes per second for 2*UDP_PRUNE_TIMEOUT+3 = {} s to a silent target, which then answers the last one | idle: one exchange, {} s of silence, one more exchange | idle gap between one and two prune timeouts: one exchange, {} s of silence, one more exchange from the same socket whose FIRST transmission must be at the target within {} ms]", udp::SLOW_LEN, 2 * udp::prune_timeout().as_secs() + 3, 2 * udp::prune_timeout().as_secs() + 1, udp::prune_timeout().as_secs() + udp::GAP_EXTRA_S, udp::GAP_FIRST_TX_MS) } else { String::new() });
     rep.bounds.insert("tcp_entry_points".into(), json!(Entry::ALL.iter().map(|e| e.name()).collect::<Vec<_>>()));
     rep.bounds.insert("ipv6_loopback".into(), json!(b.ipv6_loopback));
     rep.bounds.insert("tcp_ipv6_literal_entry_points".into(), json!(if b.ipv6_loopback { Entry::V6.iter().map(|e| e.name()).collect::<Vec<_>>() } else { Vec::new() }));
@@ -1137,6 +1195,11 @@ pub fn run(args: &Args) -> Report {
     rep.bounds.insert("tcp_connections".into(), json!(b.concs));
     rep.bounds.insert("tcp_chunkings".into(), json!(Chunk::ALL.iter().map(|e| e.name()).collect::<Vec<_>>()));
     rep.bounds.insert("tcp_close_orders".into(), json!(Order::ALL.iter().map(|e| e.name()).collect::<Vec<_>>()));
+    rep.bounds.insert("tcp_close_orders_after_half_close_sub_matrix".into(), json!(Order::AFTER_HALF.iter().map(|e| e.name()).collect::<Vec<_>>()));
+    rep.bounds.insert("tcp_after_half_close_payload_lengths_1_connection".into(), json!(b.after_half_lens));
+    rep.bounds.insert("tcp_after_half_close_payload_length_3_connections".into(), json!(b.after_half_conc3_len));
+    rep.bounds.insert("tcp_after_half_close_filler".into(), json!(format!("{} B every {} ms; the closing end reads up to {} B of it, for at most {} ms", tcp::FILLER_CHUNK, tcp::FILLER_PAUSE.as_millis(), tcp::AFTER_HALF_FILLER_READ, tcp::AFTER_HALF_LINGER.as_millis())));
+    rep.bounds.insert("tcp_after_half_close_cases".into(), json!(cases.iter().filter(|c| matches!(c, Case::Tcp(t) if t.order.after_half())).count()));
     rep.bounds.insert("udp_entries".into(), json!(UKind::ALL.iter().map(|e| e.name()).collect::<Vec<_>>()));
     rep.bounds.insert("udp_topologies".into(), json!(Topo::ALL.iter().map(|e| e.name()).collect::<Vec<_>>()));
     rep.bounds.insert("udp_payload_lengths".into(), json!(b.udp_lens));
@@ -1174,6 +1237,10 @@ pub fn run(args: &Args) -> Report {
     rep.extra.insert("tcp_halfclose_eof_then_reverse_data_verified".into(), json!(sums.tcp.halfclose_eof_seen));
     rep.extra.insert("tcp_final_end_eof".into(), json!(sums.tcp.end_eof));
     rep.extra.insert("tcp_final_end_reset".into(), json!(sums.tcp.end_reset));
+    rep.extra.insert("tcp_after_half_close_cases_clean".into(), json!(sums.after_half_cases_clean));
+    rep.extra.insert("tcp_closed_after_half_close_then_close".into(), json!(sums.tcp.after_halfclose_closed));
+    rep.extra.insert("tcp_closed_after_half_close_then_close_filler_read_before_close".into(), json!(sums.tcp.after_halfclose_filler_read));
+    rep.extra.insert("tcp_closed_after_half_close_then_close_write_error_kinds".into(), json!(sums.tcp.after_halfclose_end_kinds));
     rep.extra.insert("refuse_granted_then_closed".into(), json!(sums.tcp.refuse_granted_then_closed));
     rep.extra.insert("refuse_local_end_eof".into(), json!(sums.tcp.refuse_end_eof));
     rep.extra.insert("refuse_local_end_reset".into(), json!(sums.tcp.refuse_end_reset));
@@ -1204,7 +1271,8 @@ pub fn run(args: &Args) -> Report {
             rep.sample(c.to_json());
         }
     }
-    let picks: [&dyn Fn(&Case) -> bool; 9] = [
+    let picks: [&dyn Fn(&Case) -> bool; 10] = [
+        &|c| matches!(c, Case::Tcp(t) if t.order == Order::TargetHalfThenClose && t.entry == Entry::Socks5Ip && t.conc == 1 && t.c2t == 1 && t.t2c > 1),
         &|c| matches!(c, Case::Udp(u) if u.topo == Topo::TwoFamilies),
         &|c| matches!(c, Case::Tcp(t) if t.entry == Entry::HttpConnectV6 && t.c2t > 1),
         &|c| matches!(c, Case::Udp(u) if u.kind == UKind::SocksIp && u.topo == Topo::StrayAtyp),
@@ -1224,6 +1292,7 @@ pub fn run(args: &Args) -> Report {
     rep.assumptions.push("a violation that needs a particular interleaving (e.g. back-pressure from the other scenarios running in parallel) may not show again when its replay file is run alone; the replay then reports no violation".into());
     rep.assumptions.push("quick tier: 70001-byte streams (nine 8 KiB frames) everywhere; the stream of one receive window of 8 KiB frames plus 4099 bytes (the sender needs at least one window update) only with 1 connection and one-write chunking (every entry point, every close order); thorough tier: three windows and 4099 bytes in every combination, 5 simultaneous connections and more datagram lengths".into());
     rep.assumptions.push("how a read ends after BOTH directions are finished (EOF or reset) is recorded, not judged; a half-close must arrive as a true EOF and the data sent after it must arrive completely".into());
+    rep.assumptions.push(format!("close-after-half-close orders: only 'the still-sending end's writes begin to fail before the deadline' is judged about the close (which error, and whether a reset or an EOF came first, is recorded in extra.tcp_closed_after_half_close_then_close_write_error_kinds); the closing end closes after the other end's payload and {} filler bytes or {} ms, whichever comes first (extra.tcp_closed_after_half_close_then_close_filler_read_before_close counts the closes that had read filler); the filler received must be a prefix of the filler sent", tcp::AFTER_HALF_FILLER_READ, tcp::AFTER_HALF_LINGER.as_millis()));
     rep.assumptions.push("target refuses: a SOCKS/HTTP success answer followed by a close, a refusal answer, or a close before the answer all count as 'closed rather than left hanging'".into());
     rep.assumptions.push("the address inside the SOCKS5 UDP reply header is recorded (extra.socks5_udp_header_addr_*), not judged: the statement only demands a well-formed header that can be stripped".into());
     rep.assumptions.push("loopback only (127.0.0.1, a Unix socket and, for the targets of the IPv6-literal, dual-stack-name and two-address-families sub-matrices where it exists, [::1]); plain ws:// between client and server; keep-alive off; fresh client+server per matrix point".into());
@@ -1247,6 +1316,9 @@ pub fn run(args: &Args) -> Report {
         }
         if sums.tcp.halfclose_eof_seen == 0 {
             why.push("no half-close was observed");
+        }
+        if sums.tcp.after_halfclose_closed == 0 && cases.iter().any(|c| matches!(c, Case::Tcp(t) if t.order.after_half())) {
+            why.push("no close after a half-close was observed");
         }
         if sums.tcp.refuse_granted_then_closed + sums.tcp.refuse_refused_reply + sums.tcp.refuse_closed_before_reply == 0 {
             why.push("no refusal was observed");
